@@ -113,17 +113,22 @@ def jobs_for(prop, tier, seed):
         J += conc(prop, seed, ["steady", "view", "remove-stream", "wrap-slow-clone", "add-stream-sole"], n, s)
         J.append(miri(prop, seed, "steady", ["conc", "--families", "steady,wrap-slow-clone", "--runs", "2", "--fl", "broadcast"], ms, mt, {"*": "C03,C04,C16"}, base=11))
     elif prop == "C04":
-        J += conc(prop, seed, ["wrap-slow-clone", "view", "wrap-slow-clone", "steady", "handle-churn"], n - 4, s,
+        J += conc(prop, seed, ["wrap-slow-clone", "view", "wrap-slow-clone", "steady", "handle-churn"], n - 8, s,
                   extra=[[], ["--fl", "broadcast"]])
+        # long free-running executions with several consumers hammering one shared stream: windows of a
+        # few instructions (no hook site inside) are only reachable through contention / pre-emption
+        J += conc(prop, seed, ["wrap-slow-clone", "steady"], 1, s, label="long", base=80, extra=[["--long", "--fl", "broadcast"]])
+        J += shard_jobs(prop, seed, ["tight"], 3, s, "tight", base=90)
         J += conc(prop, seed, ["wrap-slow-clone", "view"], 4, s, label="asan", variant="asan", base=50,
                   tool_props={"*": "C04,C16"})
         J.append(miri(prop, seed, "slowclone", ["conc", "--families", "wrap-slow-clone,view", "--runs", "2", "--fl", "broadcast"], ms + 4, mt, {"*": "C04"}, base=13))
     elif prop == "C05":
         J += shard_jobs(prop, seed, ["seq", "--perm-every", "3"], 4, s, "seq")
-        J += conc(prop, seed, ["teardown-orders", "no-receiver", "steady", "last-sender", "handle-churn", "wrap-slow-clone", "view"], n - 7, s)
+        J += conc(prop, seed, ["teardown-orders", "no-receiver", "steady", "last-sender", "handle-churn", "wrap-slow-clone", "view"], n - 8, s)
         J += conc(prop, seed, ["teardown-orders", "no-receiver"], 2, s, label="asan", variant="asan", base=50,
                   tool_props={"*": "C05,C04,C16"})
         J += shard_jobs(prop, seed, ["seq", "--p6", "--cfgs", "p6", "--perm-every", "0"], 1, 4, "seq-two-streams-on-mpmc", base=70)
+        J += shard_jobs(prop, seed, ["tight"], 2, s, "tight", base=90)
         J.append(miri(prop, seed, "seq", ["seq", "--runs", "2", "--len", "40", "--perm-every", "0"], ms, mt, {"*": "C05,C09", "miri-leak": "C05,C17"}, leaks=True, base=17))
     elif prop == "C06":
         J += conc(prop, seed, ["quiesce", "quiesce", "steady", "remove-stream", "handle-churn", "add-stream-sole",
